@@ -203,6 +203,9 @@ func collectExprDeps(e Expr, locals map[string]bool, add func(string)) {
 		collectExprDeps(e.Index, locals, add)
 	case *MemberExpr:
 		collectExprDeps(e.Expr, locals, add)
+	case *BitcastExpr:
+		collectTypeRefs(e.Type, add)
+		collectExprDeps(e.Expr, locals, add)
 	}
 }
 
@@ -277,6 +280,8 @@ func collectStmtDeps(s Stmt, locals map[string]bool, add func(string)) {
 	case *ExprStmt:
 		collectExprDeps(s.Expr, locals, add)
 	case *BreakIfStmt:
+		collectExprDeps(s.Condition, locals, add)
+	case *ConstAssertDecl:
 		collectExprDeps(s.Condition, locals, add)
 	}
 }
